@@ -16,6 +16,8 @@ year `y` (after 31 December of `y - 1`, not after 31 December of `y`) -/
 def isoWeekExists (y w : Int) : Prop :=
   1 ≤ w ∧ daysBeforeYear y < isoDayNum y w 3 ∧ isoDayNum y w 3 ≤ daysBeforeYear (y + 1)
 
+instance (y w : Int) : Decidable (isoWeekExists y w) := by unfold isoWeekExists; exact inferInstance
+
 /-- the usual calendar rule: a year has 53 ISO weeks when 1 January is a Thursday, or when it is a
 leap year and 1 January is a Wednesday; 52 otherwise -/
 def isoWeeksInYear (y : Int) : Nat :=
